@@ -623,6 +623,11 @@ func RunRemoteDkg(ctx context.Context, sc *DkgScenario, binary string, log *Log)
 		}
 		after := snap(call.Inst, call.Account)
 		alive := e.proc != nil && !hasExited(e.exited) && after != "?"
+		for _, oid := range ids { // (a request may bring down another instance than the one it was sent to)
+			if oe := envs[oid]; oe == nil || oe.proc == nil || hasExited(oe.exited) {
+				alive = false
+			}
+		}
 		ev := Ev{"ev": "Call", "i": i, "inst": call.Inst, "caller": call.Caller, "msg": call.Msg, "account": call.Account, "result": errClass(cerr),
 			"changed": before != after, "crashed": !alive}
 		if cerr != nil {
